@@ -129,6 +129,7 @@ func (n *Node) Execute(ctx context.Context) error {
 	if err != nil {
 		return err
 	}
+	verifPoint("node.created", n)
 	n.SetError(cmd.Run())
 	if n.outputReader != nil && n.data.Step.Output != "" {
 		util.LogErr("close pipe writer", n.outputWriter.Close())
@@ -232,6 +233,7 @@ func (n *Node) setStatus(status NodeStatus) {
 	n.mu.Lock()
 	defer n.mu.Unlock()
 	n.data.State.Status = status
+	verifTrace("status", n)
 }
 
 func (n *Node) setErr(err error) {
@@ -239,6 +241,7 @@ func (n *Node) setErr(err error) {
 	defer n.mu.Unlock()
 	n.data.State.Error = err
 	n.data.State.Status = NodeStatusError
+	verifTrace("status", n)
 }
 
 func (n *Node) signal(sig os.Signal, allowOverride bool) {
@@ -255,6 +258,7 @@ func (n *Node) signal(sig os.Signal, allowOverride bool) {
 	}
 	if status == NodeStatusRunning {
 		n.data.State.Status = NodeStatusCancel
+		verifTrace("status", n)
 	}
 }
 
@@ -264,6 +268,7 @@ func (n *Node) cancel() {
 	status := n.data.State.Status
 	if status == NodeStatusRunning {
 		n.data.State.Status = NodeStatusCancel
+		verifTrace("status", n)
 	}
 	if n.cancelFunc != nil {
 		log.Printf("canceling node: %s", n.data.Step.Name)
@@ -388,6 +393,7 @@ func (n *Node) setupLog() error {
 	return nil
 }
 func (n *Node) teardown() error {
+	verifPoint("node.teardown", n)
 	if n.done {
 		return nil
 	}
